@@ -107,6 +107,19 @@ def run(ctx, replay):
     vcore.corrupt_selftest(ctx, "MetricDataTrace", "MetricDataTrace.cfg", trm, other_family, "a 5min block sits in another day's family")
     vcore.corrupt_selftest(ctx, "MetricDataTrace", "MetricDataTrace.cfg", tr, wrong_slot, "a target cell sits in the neighbouring coarse slot")
     vcore.corrupt_selftest(ctx, "MetricDataTrace", "MetricDataTrace.cfg", tr, doubled, "a sum cell counted twice after the rollup was triggered again")
+    # observation only (never part of the verdict): CloseStore of a source store while its rollup job is between two
+    # target stores -- both sides wait for each other (manager mutex held across family.close / GetStoreByName of the
+    # job); the histories above therefore never close a source store while its job may run
+    try:
+        scr = os.path.join(ctx.scratch, "scr-closeprobe")
+        os.makedirs(scr, exist_ok=True)
+        summ, _, _ = ctx.run_vdrive(["mdata", "--closeprobe", "--out", os.path.join(ctx.scratch, "closeprobe.ndjson"), "--scratch", scr],
+                                    timeout=120, allow_fail=True)
+        if summ is not None:
+            ctx.extra["observation_close_source_store_during_rollup"] = summ.get("extra", {}).get("closeprobe")
+            ctx.log("observation (not judged): CloseStore(source store) vs its rollup job -> %s" % ctx.extra["observation_close_source_store_during_rollup"])
+    except Exception as e:  # noqa: BLE001 -- an observation must never change the verdict
+        ctx.log("observation (close vs rollup) not obtained: %s" % e)
     ctx.assumptions += [
         "source interval 10s (one family per hour), targets 5min (month calculator: family = day) and 1h (year calculator: family = month); the expected base slot (hour*12, (day-1)*24+hour) and the expected target segment/family are computed by the harness from the civil date, independent of lindb's calculators; TZ=UTC",
         "one source family per history (any hour of five dates incl. a leap day and month/year ends); values integral",
